@@ -322,9 +322,20 @@ def assemble(vacuity=False, only_files=None, extra_theorems=True, extracted=None
                 gname, gbound = free_self
                 text = re.sub(r"\bSelf::(\w+)", lambda mm: "<%s as %s>::%s" % (gname, trait_path, mm.group(1)) if mm.group(1)[0].islower() else mm.group(0), text)
                 text = re.sub(r"\bSelf\b", gname, text)
+                # a `self` receiver becomes an ordinary parameter of the free function
+                text = re.sub(r"\(\s*&\s*mut\s+self\b", "(this: &mut " + gname, text, count=1)
+                text = re.sub(r"\(\s*&\s*self\b", "(this: &" + gname, text, count=1)
+                text = re.sub(r"\(\s*(mut\s+)?self\b", "(this: " + gname, text, count=1)
+                text = re.sub(r"\bself\b", "this", text)
                 mfn = re.search(r"\bfn\s+\w+__vac\s*(<)?", text)
                 if mfn.group(1):
-                    text = text[:mfn.end()] + gbound + ", " + text[mfn.end():]
+                    # lifetimes stay first
+                    ml = re.match(r"((\s*'\w+\s*,?)*)", text[mfn.end():])
+                    at = mfn.end() + len(ml.group(1))
+                    lead = text[mfn.end():at]
+                    sep = "" if (not lead.strip() or lead.rstrip().endswith(",")) else ", "
+                    rest = text[at:]
+                    text = text[:at] + sep + gbound + ("" if rest.lstrip().startswith(">") else ", ") + rest
                 else:
                     text = text[:mfn.end()] + "<" + gbound + ">" + text[mfn.end():]
         # return type wrapper
@@ -437,6 +448,10 @@ def assemble(vacuity=False, only_files=None, extra_theorems=True, extracted=None
             bp = ("\n        proof {\n" + lc.body_proof.rstrip("\n") + "\n        }\n") if lc.body_proof.strip() else ""
             body_rest = body_rest[:hdr_start] + hdr.rstrip() + inv + "    {" + bp + body_rest[p + len(mark):]
         A.add(body_rest.lstrip("\n").rstrip())
+        if free_self:
+            # contract clauses and loop invariants were spliced in after the receiver was renamed
+            for q in range(start_line - 1, len(A.lines)):
+                A.lines[q] = re.sub(r"\bself\b", "this", A.lines[q])
         A.fn_ranges.append((start_line, A.lineno() - 1, key + ("__vac" if dup else "")))
         if not dup:
             A.fn_bodies[key] = body_rest
@@ -651,6 +666,14 @@ def assemble(vacuity=False, only_files=None, extra_theorems=True, extracted=None
                         A.add(f"    derive_auth_keypair_default::<{gname}, CS>(seed)")
                         A.add("}")
                 blanket = re.match(r"^(\w+) where (.+?),?$", mt.group(3).strip()) if mt else None
+                if mt and not blanket and mt.group(1):
+                    # `impl<T: Bound> Trait for T`: the bound sits in the generic parameter list
+                    gm = re.match(r"^<\s*(\w+)\s*:\s*(.+)>$", mt.group(1).strip())
+                    if gm and gm.group(1) == mt.group(3).strip():
+                        class _B:       # same shape as the regex match above
+                            def __init__(self, a, b): self._g = (a, b)
+                            def group(self, i): return self._g[i - 1]
+                        blanket = _B(gm.group(1), gm.group(1) + ": " + gm.group(2).strip())
                 if dups and mt and blanket:
                     # blanket impl `impl<G> Trait for G where G: B`: an inherent impl on a type parameter does not exist, the twins are free functions generic in G
                     impl_stack.append((hdr_text, False))
@@ -693,9 +716,11 @@ def assemble(vacuity=False, only_files=None, extra_theorems=True, extracted=None
     if only_files is None:
         # a contract whose function no longer exists (helper removed / renamed): only the properties that name it become undecided
         A.lost_contracts = [k for k in fns if k not in used_fn_contracts]
-        missingl = [k for k in loops if k not in used_loops]
-        if missingl:
-            raise Undecided("LOST-ANCHOR: loop contracts without a loop: " + str(missingl))
+        # a loop contract whose loop is gone: if the function's body was dropped (refused) or the function no longer exists, that is already
+        # reported there; otherwise the function still verifies or fails on its own clauses, and the stale invariant is recorded as a refusal
+        missingl = [k for k in loops if k not in used_loops and k[0] not in A.refused and k[0] not in A.lost_contracts]
+        for k in missingl:
+            A.refused.setdefault(k[0], []).append("loop %d of the function no longer exists (its loop contract has nothing to attach to)" % k[1])
         if impl_extra:
             raise Undecided("LOST-ANCHOR: impl_extra without an impl: " + ", ".join(impl_extra))
     A.add("// ===================================================================== THEOREMS")
